@@ -33,6 +33,12 @@ var veExprs = []string{
 	"(lst.len() - 1)",
 	"{ lst.push(4); 2 }",
 	"{ println(\"blk\"); 2 }",
+	"((anyo->a).unwrap() as int)",
+	"{ let w: int = anyo~>a; w }",
+	"try { nopt.unwrap() } catch e { 2 }",
+	"try { let w: int = anyo~>zz; w } catch e { 2 }",
+	"if (anyo->zz).is_none() { 2 } else { 3 }",
+	"{ let w: ?any = anyo->zz; 2 }",
 }
 
 // %E is the expression; every context prints what it computed
@@ -87,16 +93,49 @@ func VerifHarness_ExprContexts() {
 	errors.VerifTag("expr", veExprs[ei])
 	errors.VerifTag("ctx", fmt.Sprint(ci))
 	e := veExprs[ei]
+	// locals that only some expressions need (the reference interpreter does not model any-objects)
+	locals := veLocals
+	if veContains(e, "anyo") {
+		locals += "  let anyo = new { a: 2 } as { ? };\n"
+	}
+	if veContains(e, "nopt") {
+		locals += "  let nopt: ?int = none;\n"
+	}
 	var code string
 	if ci == 8 {
 		// the expression is the operand of a return statement of a function of its own
-		code = vePreFns + "fn ret() -> int {\n" + veLocals + "  return " + e + ";\n}\nfn main() {\n" + veContexts[ci] + "}\n"
+		code = vePreFns + "fn ret() -> int {\n" + locals + "  return " + e + ";\n}\nfn main() {\n" + veContexts[ci] + "}\n"
 	} else {
-		code = vePreFns + "fn main() {\n" + veLocals + veSubst(veContexts[ci], e) + "  println(\"end\", lst.len(), obj.f, x);\n}\n"
+		code = vePreFns + "fn main() {\n" + locals + veSubst(veContexts[ci], e) + "  println(\"end\", lst.len(), obj.f, x);\n}\n"
 	}
 	a := errors.VerifNdInt64("A")
 	tv := errors.VerifNdBool("T")
 	errors.VerifAssume(tv)
 	inputs := []verifInput{{name: "A", kind: 'i', i: a}, {name: "T", kind: 'b', b: tv}}
 	verifCheckProgramX(mode, code, inputs, true, mode != 2 && mode != 1)
+}
+
+func veContains(s, sub string) bool {
+	for i := 0; i+len(sub) <= len(s); i++ {
+		if s[i:i+len(sub)] == sub {
+			return true
+		}
+	}
+	return false
+}
+
+// veProgram builds the program of (expression, context) for the other harnesses that reuse this family.
+func veProgram(ei, ci int) string {
+	e := veExprs[ei]
+	locals := veLocals
+	if veContains(e, "anyo") {
+		locals += "  let anyo = new { a: 2 } as { ? };\n"
+	}
+	if veContains(e, "nopt") {
+		locals += "  let nopt: ?int = none;\n"
+	}
+	if ci == 8 {
+		return vePreFns + "fn ret() -> int {\n" + locals + "  return " + e + ";\n}\nfn main() {\n" + veContexts[ci] + "}\n"
+	}
+	return vePreFns + "fn main() {\n" + locals + veSubst(veContexts[ci], e) + "  println(\"end\", lst.len(), obj.f, x);\n}\n"
 }
